@@ -200,14 +200,76 @@ def run_cfg(chk, facts, cfg):
         if fn.get('path', '').startswith('interval::_::') or 'serde' in fn.get('path', ''):
             return imp is not None and imp.get('derived', False)
         return False
+    def preserves(fn):
+        """An unlisted site: decide from its summary that every two-sided interval it returns / stores satisfies
+        low <= high, for well-formed interval operands and element operands in every weak order (parametricity: the
+        function may only compare, move and clone element values).  -> (True|False|None, detail)"""
+        while fn['kind'] == 'Closure':
+            fn = facts.fns[fn['parent']]
+        bases, extra, names = [], [], []
+        for i, ty in enumerate(fn.get('inputs') or []):
+            inner = ty.get('inner') if ty.get('k') == 'ref' else ty
+            nm = 'ABCDEFGH'[i] if i < 8 else 'P%d' % i
+            if inner.get('adt') == m.path:
+                bases.append(nm)
+            elif inner.get('k') == 'param':
+                nm = 'x%d' % i
+                extra.append(nm)
+            else:
+                return None, 'parameter #%d of type %s is neither an interval nor an element value' % (i, ty.get('s'))
+            names.append(nm)
+        try:
+            sx, paths = summarize(facts, fn, names)
+        except Unsupported as e:
+            return None, 'outside the analysable fragment: %s' % e
+        chk.saw(facts, fn, paths=len(paths))
+        n = 0
+
+        def two_sided_ok(v):
+            if isinstance(v, tuple) and v and v[0] == 'adt':
+                if v[1] == m.path and v[2] == TWO:
+                    d = m.decode(v)
+                    if not (isinstance(d[1], int) and isinstance(d[2], int)):
+                        raise NotParametric('bound of the result is not an input value')
+                    return d[1] <= d[2]
+                return all(two_sided_ok(x) for x in v[3])
+            if isinstance(v, tuple) and v and v[0] == 'tuple':
+                return all(two_sided_ok(x) for x in v[1])
+            return True
+        try:
+            for kinds, variants, env in m.classes(bases, extra):
+                n += 1
+                hits = [p for p in paths if guard_holds(p.guard, variants, env)]
+                if not hits:
+                    return None, 'no path covers class %s' % describe_env(env)
+                for p in hits:
+                    if p.unknowns:
+                        return None, 'unmodelled callee %s' % (p.unknowns[0][0],)
+                    if not p.is_ret():
+                        continue
+                    vals = ([p.ret] if p.ret is not None else []) + [v for v in (p.effects or {}).values() if v is not None]
+                    for v in vals:
+                        if not two_sided_ok(eval_term(v, env)):
+                            return False, 'for %s operands with %s it builds the two-sided interval %s with low > high' % (
+                                kinds_str(kinds) if kinds else 'element', describe_env(env) or 'no bounds', show_val(v)[:120])
+        except NotParametric as e:
+            return None, 'not parametric in the element values: %s' % e
+        return True, 'low <= high in all %d classes of well-formed operands' % n
     seen = set()
     for fn in sites:
         if fn['id'] in seen:
             continue
         seen.add(fn['id'])
+        good, why = site_ok(fn), ''
+        if not good:
+            good, why = preserves(fn)
+            if good is None:
+                why = 'unlisted construction site of the two-sided variant, and low <= high could not be decided: ' + why
+            elif good is False:
+                why = 'unlisted construction site of the two-sided variant: ' + why
         chk.ob('%s:construct:%s%s' % (PID, fn['path'], sfx), 'who-may-construct',
-               'a two-sided interval is built only by the checked constructor, clones, and arithmetic on well-formed operands',
-               site_ok(fn), '' if site_ok(fn) else 'unlisted construction site of the two-sided variant', facts.loc(fn['id']))
+               'a two-sided interval is built only by the checked constructor, clones, arithmetic on well-formed operands, or a function proven to keep low <= high',
+               good, why if good is not True else '', facts.loc(fn['id']))
     if cfg == 'default':
         chk.floor('two-sided-construction-sites', len(seen), 4)
 
@@ -272,14 +334,15 @@ def run_cfg(chk, facts, cfg):
             chk.ob('%s:width:analysable%s' % (PID, sfx), 'E5-table', 'width', None, str(e), where)
 
     # conversions out of an interval
-    f = facts.trait_method('core::convert::From', None, 'from', self_s='(std::option::Option<T>, std::option::Option<T>)')
+    from_ivl = lambda imp: bool(imp.get('trait_args')) and imp['trait_args'][0].get('adt') == m.path
+    f = facts.trait_method('core::convert::From', None, 'from', self_s='(std::option::Option<T>, std::option::Option<T>)', trait_args=from_ivl)
     from_opts = f
     if chk.anchor('From<Interval<T>> for (Option<T>,Option<T>)' + sfx, f):
         tab(f, 'into_options', lambda kinds, env: ('tuple', (opt(lo_rank(kinds, env)), opt(hi_rank(kinds, env)))))
     nconv = 0
     from_f64 = None
     for ty in INTS + ['f32', 'f64']:
-        f = facts.trait_method('core::convert::From', None, 'from', self_s='(%s, %s)' % (ty, ty))
+        f = facts.trait_method('core::convert::From', None, 'from', self_s='(%s, %s)' % (ty, ty), trait_args=from_ivl)
         if not chk.anchor('From<Interval<%s>> for (%s,%s)%s' % (ty, ty, ty, sfx), f):
             continue
         nconv += 1
